@@ -105,6 +105,7 @@ impl PartialOrd for Fl {
     w("  #[verifier::external_body] pub fn is_zero(&self) -> (r: bool) ensures r == (self@ == 0real) { unimplemented!() }\n")
     w("  #[verifier::external_body] pub fn is_one(&self) -> (r: bool) ensures r == (self@ == 1real) { unimplemented!() }\n")
     w("  #[verifier::external_body] pub fn abs(self) -> (r: Fl) ensures r@ == abs_r(self@) { unimplemented!() }\n")
+    w("  #[verifier::external_body] pub fn recip(self) -> (r: Fl) requires self@ != 0real ensures r@ == recip_r(self@), self@ > 0real ==> r@ > 0real, self@ < 0real ==> r@ < 0real, r@ != 0real { unimplemented!() }\n")
     w("  #[verifier::external_body] pub fn ln(self) -> (r: Fl) requires self@ > 0real ensures r@ == ln_r(self@), self@ > 1real ==> r@ > 0real { unimplemented!() }\n")
     for c in CONSTS:
         w(f"  #[verifier::external_body] pub fn {c}() -> (r: Fl) ensures r@ == c_{c}() {{ unimplemented!() }}\n")
